@@ -4,13 +4,19 @@ package main
 
 import (
 	"bytes"
+	"context"
 	"fmt"
 	"io"
 	"net"
+	"net/http"
+	"net/http/httptest"
+	"net/url"
 	"os"
 	"strings"
 	"sync"
 	"time"
+
+	"github.com/google/inverting-proxy/utils/tcpbridge/connection"
 
 	"github.com/google/inverting-proxy/zz_verif/vh"
 )
@@ -154,4 +160,45 @@ func suiteBridgeLife(e *vh.Env) {
 		e.Fail("C16:connections-leaked-after-both-closed", fmt.Sprintf("after every TCP peer had closed, the bridge processes still hold sockets: backend %d (baseline %d), frontend %d (baseline %d)", now[0], base[0], now[1], base[1]), -1, nil, now, base)
 	}
 	e.Eval("release", true)
+	// the TCP server is gone when the bridge backend dials it: the bridge connection (a hijacked websocket that
+	// net/http no longer owns) must still be ended and released by the handler
+	for k := 0; k < e.N(3, 40); k++ {
+		port := freePort() // nothing listens there
+		var mu2 sync.Mutex
+		var conns []net.Conn
+		srv := httptest.NewUnstartedServer(connection.Handler(port, http.NotFoundHandler()))
+		srv.Config.ConnState = func(c net.Conn, st http.ConnState) {
+			if st == http.StateNew {
+				mu2.Lock()
+				conns = append(conns, c)
+				mu2.Unlock()
+			}
+		}
+		srv.Start()
+		u, _ := url.Parse("ws" + strings.TrimPrefix(srv.URL, "http") + connection.StreamingPath)
+		nc, err := connection.DialWebsocket(context.Background(), u, nil)
+		if err == nil {
+			wc := nc.(*connection.WebsocketNetConn)
+			wc.Conn.SetReadDeadline(time.Now().Add(2 * time.Second))
+			_, rerr := wc.Read(make([]byte, 16))
+			if ne, ok := rerr.(net.Error); rerr == nil || (ok && ne.Timeout()) {
+				e.Fail("C16:eof-not-propagated:server-unreachable", fmt.Sprintf("the TCP server behind the bridge refused the connection; the bridge connection was neither closed nor answered within 2 s (read: %v)", rerr), 1000+k, nil, nil, nil)
+			}
+			wc.Close()
+		}
+		// the handler's side of the connection must have been closed by the handler itself: writing to it fails
+		time.Sleep(50 * time.Millisecond)
+		mu2.Lock()
+		for _, c := range conns {
+			c.SetWriteDeadline(time.Now().Add(200 * time.Millisecond))
+			if _, werr := c.Write([]byte{0x88, 0x00}); werr == nil {
+				e.Fail("C16:connections-leaked-after-dial-failure", "the bridge backend kept the websocket of a connection whose TCP server could not be reached (the socket is still writable after the handler returned)", 1000+k, nil, nil, nil)
+			}
+			c.Close()
+		}
+		mu2.Unlock()
+		srv.Close()
+		e.Eval(fmt.Sprintf("dial-failure-%d", k), true)
+		e.Count("server-unreachable-at-dial")
+	}
 }
